@@ -1,9 +1,23 @@
 //! Correspondence harness for actix-codec (C13, C14, C15).
 //! One case per stdin line, one trace per stdout line; same text format as ocaml/codec/driver.ml.
-use std::io::{self, BufRead, Write};
+//!
+//! modes: c15 / c15enc   LinesCodec on one buffer
+//!        c13            `<codec>;<read script>`: the real `Framed` over a scripted `AsyncRead`, polled
+//!                       through `Stream::poll_next` until `None` (bounded) plus two more polls
+//!        c14            `<codec>;<write answers>;<flush answers>;<shutdown answers>;<ops>`: the real
+//!                       `Framed` over a scripted `AsyncWrite`, driven through the four `Sink` methods
+use std::{
+    collections::VecDeque,
+    io::{self, BufRead, Write},
+    pin::Pin,
+    sync::Arc,
+    task::{Context, Poll, Wake, Waker},
+};
 
-use actix_codec::{Decoder, Encoder, LinesCodec};
-use bytes::BytesMut;
+use actix_codec::{AsyncRead, AsyncWrite, BytesCodec, Decoder, Encoder, Framed, LinesCodec, ReadBuf};
+use bytes::{Bytes, BytesMut};
+use futures_core::Stream;
+use futures_sink::Sink;
 
 fn unhex(s: &str) -> Vec<u8> {
     (0..s.len() / 2)
@@ -67,11 +81,482 @@ fn c15enc(line: &str) -> String {
     format!("{}#{}", enc, run_lines(&mut buf))
 }
 
+// ------------------------------------------------------------------------------------------
+// shared by c13 / c14
+// ------------------------------------------------------------------------------------------
+fn crc32(data: &[u8]) -> u32 {
+    let mut c: u32 = 0xFFFF_FFFF;
+    for &b in data {
+        c ^= b as u32;
+        for _ in 0..8 {
+            c = if c & 1 == 1 { 0xEDB8_8320 ^ (c >> 1) } else { c >> 1 };
+        }
+    }
+    c ^ 0xFFFF_FFFF
+}
+
+/// short byte strings in hex, long ones as `#<len>.<crc32>`
+fn blob(b: &[u8]) -> String {
+    if b.len() <= 24 {
+        hex(b)
+    } else {
+        format!("#{}.{:08x}", b.len(), crc32(b))
+    }
+}
+
+struct NoopWake;
+impl Wake for NoopWake {
+    fn wake(self: Arc<Self>) {}
+}
+
+fn split_nonempty(s: &str, c: char) -> Vec<&str> {
+    if s.is_empty() {
+        Vec::new()
+    } else {
+        s.split(c).collect()
+    }
+}
+
+const MOCK_ERR: io::ErrorKind = io::ErrorKind::BrokenPipe;
+fn mock_err() -> io::Error {
+    io::Error::new(MOCK_ERR, "scripted transport error")
+}
+
+enum Rd {
+    Chunk(Vec<u8>),
+    Pending,
+    Eof,
+    Err,
+}
+#[derive(Clone, Copy)]
+enum WAns {
+    Accept(usize),
+    Pending,
+    Zero,
+    Err,
+}
+#[derive(Clone, Copy)]
+enum FAns {
+    Ok,
+    Pending,
+    Err,
+}
+
+/// The scripted transport.  Reads: one script entry per `poll_read`; an exhausted script reads 0 bytes.
+/// Writes: one answer per `poll_write`/`poll_flush`/`poll_shutdown`; exhausted scripts accept
+/// everything / answer Ok.  Everything the transport sees is recorded in `events`.
+#[derive(Default)]
+struct Mock {
+    rd: VecDeque<Rd>,
+    ws: VecDeque<WAns>,
+    fs: VecDeque<FAns>,
+    ss: VecDeque<FAns>,
+    events: Vec<String>,
+    /// a scripted chunk did not fit into the ReadBuf it was offered and was delivered in pieces
+    short: bool,
+    /// a read was offered less than LW = 1024 bytes of room
+    low_room: bool,
+}
+
+impl AsyncRead for Mock {
+    fn poll_read(
+        mut self: Pin<&mut Self>,
+        cx: &mut Context<'_>,
+        buf: &mut ReadBuf<'_>,
+    ) -> Poll<io::Result<()>> {
+        if buf.remaining() < 1024 {
+            self.low_room = true;
+        }
+        match self.rd.pop_front() {
+            None | Some(Rd::Eof) => Poll::Ready(Ok(())),
+            Some(Rd::Pending) => {
+                cx.waker().wake_by_ref();
+                Poll::Pending
+            }
+            Some(Rd::Err) => Poll::Ready(Err(mock_err())),
+            Some(Rd::Chunk(data)) => {
+                let n = data.len().min(buf.remaining());
+                buf.put_slice(&data[..n]);
+                if n < data.len() {
+                    self.short = true;
+                    self.rd.push_front(Rd::Chunk(data[n..].to_vec()));
+                }
+                Poll::Ready(Ok(()))
+            }
+        }
+    }
+}
+
+fn fans(tag: &str, a: Option<FAns>, cx: &mut Context<'_>, ev: &mut Vec<String>) -> Poll<io::Result<()>> {
+    match a.unwrap_or(FAns::Ok) {
+        FAns::Ok => {
+            ev.push(format!("{tag}:o"));
+            Poll::Ready(Ok(()))
+        }
+        FAns::Pending => {
+            ev.push(format!("{tag}:p"));
+            cx.waker().wake_by_ref();
+            Poll::Pending
+        }
+        FAns::Err => {
+            ev.push(format!("{tag}:e"));
+            Poll::Ready(Err(mock_err()))
+        }
+    }
+}
+
+impl AsyncWrite for Mock {
+    fn poll_write(mut self: Pin<&mut Self>, cx: &mut Context<'_>, buf: &[u8]) -> Poll<io::Result<usize>> {
+        let ans = self.ws.pop_front().unwrap_or(WAns::Accept(usize::MAX));
+        match ans {
+            WAns::Pending => {
+                self.events.push("wp".into());
+                cx.waker().wake_by_ref();
+                Poll::Pending
+            }
+            WAns::Err => {
+                self.events.push("we".into());
+                Poll::Ready(Err(mock_err()))
+            }
+            WAns::Zero | WAns::Accept(0) => {
+                self.events.push("wz".into());
+                Poll::Ready(Ok(0))
+            }
+            WAns::Accept(k) => {
+                let n = k.min(buf.len());
+                if n == 0 {
+                    // Framed never offers an empty buffer; make it visible if it ever does
+                    self.events.push("w-empty".into());
+                } else {
+                    self.events.push(format!("w:{}", blob(&buf[..n])));
+                }
+                Poll::Ready(Ok(n))
+            }
+        }
+    }
+    fn poll_flush(mut self: Pin<&mut Self>, cx: &mut Context<'_>) -> Poll<io::Result<()>> {
+        let a = self.fs.pop_front();
+        fans("f", a, cx, &mut self.events)
+    }
+    fn poll_shutdown(mut self: Pin<&mut Self>, cx: &mut Context<'_>) -> Poll<io::Result<()>> {
+        let a = self.ss.pop_front();
+        fans("s", a, cx, &mut self.events)
+    }
+}
+
+// ---- the length-prefixed test codec (modelled as lp_decode / lp_decode_eof / lpd_decode_eof /
+//      lp_encode in coq/Model/Framed.v) ----
+#[derive(Debug)]
+enum LpError {
+    Io(io::Error),
+    BadHeader,
+    Truncated,
+    TooLong,
+}
+impl From<io::Error> for LpError {
+    fn from(e: io::Error) -> Self {
+        LpError::Io(e)
+    }
+}
+
+/// frame = one length byte n (0..=254) followed by n payload bytes
+struct LpCodec {
+    /// use the provided `Decoder::decode_eof` instead of the codec's own
+    default_eof: bool,
+}
+
+fn lp_decode(src: &mut BytesMut) -> Result<Option<Vec<u8>>, LpError> {
+    if src.is_empty() {
+        return Ok(None);
+    }
+    let n = src[0] as usize;
+    if n == 255 {
+        let _ = src.split_to(1);
+        return Err(LpError::BadHeader);
+    }
+    if src.len() - 1 < n {
+        return Ok(None);
+    }
+    let _ = src.split_to(1);
+    Ok(Some(src.split_to(n).to_vec()))
+}
+
+/// `LpCodec{default_eof: true}` must go through the trait's provided method, so it is a separate type
+struct LpDefaultEof;
+impl Decoder for LpDefaultEof {
+    type Item = Vec<u8>;
+    type Error = LpError;
+    fn decode(&mut self, src: &mut BytesMut) -> Result<Option<Vec<u8>>, LpError> {
+        lp_decode(src)
+    }
+}
+
+impl Decoder for LpCodec {
+    type Item = Vec<u8>;
+    type Error = LpError;
+    fn decode(&mut self, src: &mut BytesMut) -> Result<Option<Vec<u8>>, LpError> {
+        lp_decode(src)
+    }
+    fn decode_eof(&mut self, src: &mut BytesMut) -> Result<Option<Vec<u8>>, LpError> {
+        if self.default_eof {
+            return LpDefaultEof.decode_eof(src);
+        }
+        match lp_decode(src)? {
+            Some(f) => Ok(Some(f)),
+            None if src.is_empty() => Ok(None),
+            None => {
+                src.clear();
+                Err(LpError::Truncated)
+            }
+        }
+    }
+}
+
+impl Encoder<Vec<u8>> for LpCodec {
+    type Error = LpError;
+    fn encode(&mut self, item: Vec<u8>, dst: &mut BytesMut) -> Result<(), LpError> {
+        if item.len() > 254 {
+            return Err(LpError::TooLong);
+        }
+        dst.extend_from_slice(&[item.len() as u8]);
+        dst.extend_from_slice(&item);
+        Ok(())
+    }
+}
+
+/// counts the Decoder calls Framed makes (a codec implementation observes them)
+struct Counting<C> {
+    inner: C,
+    calls: usize,
+}
+impl<C: Decoder> Decoder for Counting<C> {
+    type Item = C::Item;
+    type Error = C::Error;
+    fn decode(&mut self, src: &mut BytesMut) -> Result<Option<C::Item>, C::Error> {
+        self.calls += 1;
+        self.inner.decode(src)
+    }
+    fn decode_eof(&mut self, src: &mut BytesMut) -> Result<Option<C::Item>, C::Error> {
+        self.calls += 1;
+        self.inner.decode_eof(src)
+    }
+}
+
+// ---- c13 ----
+fn io_item(e: &io::Error, decode_tag: &str) -> String {
+    if e.kind() == MOCK_ERR {
+        "X".into()
+    } else if e.kind() == io::ErrorKind::Other {
+        "IR".into() // provided decode_eof: "bytes remaining on stream"
+    } else {
+        format!("I{decode_tag}")
+    }
+}
+
+fn run_c13<C: Decoder>(
+    codec: C,
+    toks: &[&str],
+    show: fn(Result<C::Item, C::Error>) -> String,
+) -> String {
+    let mut rd = VecDeque::new();
+    let mut nbytes = 0;
+    for t in toks {
+        rd.push_back(match t.as_bytes()[0] {
+            b'c' => {
+                let b = unhex(&t[1..]);
+                nbytes += b.len();
+                Rd::Chunk(b)
+            }
+            b'p' => Rd::Pending,
+            b'z' => Rd::Eof,
+            b'e' => Rd::Err,
+            _ => panic!("bad read token {t}"),
+        });
+    }
+    let fuel = toks.len() + nbytes + 8;
+    let mock = Mock { rd, ..Mock::default() };
+    let mut framed = Framed::new(mock, Counting { inner: codec, calls: 0 });
+    let waker = Waker::from(Arc::new(NoopWake));
+    let mut cx = Context::from_waker(&waker);
+    let mut out: Vec<String> = Vec::new();
+    let mut extra: Option<usize> = None; // polls left after the first None
+    let mut polls = 0;
+    loop {
+        match extra {
+            Some(0) => break,
+            Some(k) => extra = Some(k - 1),
+            None => {
+                if polls == fuel {
+                    break;
+                }
+            }
+        }
+        polls += 1;
+        let before = framed.codec_ref().calls;
+        let r = Pin::new(&mut framed).poll_next(&mut cx);
+        let calls = framed.codec_ref().calls - before;
+        let txt = match r {
+            Poll::Pending => "P".to_string(),
+            Poll::Ready(None) => {
+                if extra.is_none() {
+                    extra = Some(2);
+                }
+                "N".to_string()
+            }
+            Poll::Ready(Some(it)) => show(it),
+        };
+        out.push(format!("{txt}@{calls}"));
+    }
+    let mut s = out.join(",");
+    if framed.io_ref().short {
+        s.push_str("|short");
+    }
+    if framed.io_ref().low_room {
+        s.push_str("|room<LW");
+    }
+    s
+}
+
+fn c13(line: &str) -> String {
+    let (codec, script) = line.split_once(';').expect("c13: <codec>;<script>");
+    let toks = split_nonempty(script, ',');
+    fn show_lp(it: Result<Vec<u8>, LpError>) -> String {
+        match it {
+            Ok(p) => format!("IO:{}", blob(&p)),
+            Err(LpError::Io(e)) => io_item(&e, "?"),
+            Err(LpError::BadHeader) => "IH".into(),
+            Err(LpError::Truncated) => "IT".into(),
+            Err(LpError::TooLong) => "I?".into(),
+        }
+    }
+    match codec {
+        "lines" => run_c13(LinesCodec::default(), &toks, |it| match it {
+            Ok(s) => format!("IO:{}", blob(s.as_bytes())),
+            Err(e) => io_item(&e, "E"),
+        }),
+        "bytes" => run_c13(BytesCodec, &toks, |it| match it {
+            Ok(b) => format!("IO:{}", blob(&b[..])),
+            Err(e) => io_item(&e, "?"),
+        }),
+        "lp" => run_c13(LpCodec { default_eof: false }, &toks, show_lp),
+        "lpd" => run_c13(LpCodec { default_eof: true }, &toks, show_lp),
+        c => panic!("unknown codec {c}"),
+    }
+}
+
+// ---- c14 ----
+/// payload of an item: byte j = 'a' + (seed + j) mod 26
+fn payload(len: usize, seed: usize) -> Vec<u8> {
+    (0..len).map(|j| 97 + ((seed + j) % 26) as u8).collect()
+}
+
+fn run_c14<C, I>(
+    codec: C,
+    fields: &[&str],
+    make: fn(Vec<u8>) -> I,
+    classify: fn(&<C as Encoder<I>>::Error) -> &'static str,
+) -> String
+where
+    C: Decoder + Encoder<I>,
+    <C as Encoder<I>>::Error: From<io::Error>,
+{
+    let int = |t: &str| t[1..].parse::<usize>().expect("number");
+    let ws = split_nonempty(fields[0], ',')
+        .into_iter()
+        .map(|t| match t.as_bytes()[0] {
+            b'a' => WAns::Accept(int(t)),
+            b'p' => WAns::Pending,
+            b'z' => WAns::Zero,
+            b'e' => WAns::Err,
+            _ => panic!("bad write answer {t}"),
+        })
+        .collect();
+    let fa = |s: &str| -> VecDeque<FAns> {
+        split_nonempty(s, ',')
+            .into_iter()
+            .map(|t| match t {
+                "o" => FAns::Ok,
+                "p" => FAns::Pending,
+                "e" => FAns::Err,
+                _ => panic!("bad flush answer {t}"),
+            })
+            .collect()
+    };
+    let mock = Mock { ws, fs: fa(fields[1]), ss: fa(fields[2]), ..Mock::default() };
+    let mut framed = Framed::new(mock, codec);
+    let waker = Waker::from(Arc::new(NoopWake));
+    let mut cx = Context::from_waker(&waker);
+    let mut out: Vec<String> = Vec::new();
+    for tok in split_nonempty(fields[3], ',') {
+        let r: Poll<Result<(), <C as Encoder<I>>::Error>> = match tok.as_bytes()[0] {
+            b'r' => Sink::<I>::poll_ready(Pin::new(&mut framed), &mut cx),
+            b'f' => Sink::<I>::poll_flush(Pin::new(&mut framed), &mut cx),
+            b'c' => Sink::<I>::poll_close(Pin::new(&mut framed), &mut cx),
+            b's' => {
+                let (l, sd) = tok[1..].split_once('x').expect("s<len>x<seed>");
+                let item = make(payload(l.parse().unwrap(), sd.parse().unwrap()));
+                Poll::Ready(Sink::<I>::start_send(Pin::new(&mut framed), item))
+            }
+            _ => panic!("bad op {tok}"),
+        };
+        let res = match &r {
+            Poll::Pending => "pend",
+            Poll::Ready(Ok(())) => "ok",
+            Poll::Ready(Err(e)) => classify(e),
+        };
+        let evs = std::mem::take(&mut framed.io_mut().events);
+        out.push(format!(
+            "{}[{}]={}/{}{}",
+            tok,
+            evs.join(","),
+            res,
+            if framed.is_write_buf_empty() { "E" } else { "-" },
+            if framed.is_write_buf_full() { "F" } else { "-" }
+        ));
+        // the three accessors must agree with each other
+        assert_eq!(framed.is_write_buf_full(), !framed.is_write_ready());
+    }
+    let parts = framed.into_parts();
+    format!("{}|B{}", out.join(";"), blob(&parts.write_buf[..]))
+}
+
+fn classify_io(e: &io::Error) -> &'static str {
+    if e.kind() == io::ErrorKind::WriteZero {
+        "wz"
+    } else if e.kind() == MOCK_ERR {
+        "io"
+    } else {
+        "other"
+    }
+}
+
+fn c14(line: &str) -> String {
+    let f: Vec<&str> = line.split(';').collect();
+    assert_eq!(f.len(), 5, "c14: expected 5 fields");
+    match f[0] {
+        "lines" => run_c14::<LinesCodec, String>(
+            LinesCodec::default(),
+            &f[1..],
+            |p| String::from_utf8(p).unwrap(),
+            classify_io,
+        ),
+        "bytes" => run_c14::<BytesCodec, Bytes>(BytesCodec, &f[1..], Bytes::from, classify_io),
+        "lp" => run_c14::<LpCodec, Vec<u8>>(LpCodec { default_eof: false }, &f[1..], |p| p, |e| match e {
+            LpError::Io(e) => classify_io(e),
+            LpError::TooLong => "enc",
+            _ => "other",
+        }),
+        c => panic!("unknown codec {c}"),
+    }
+}
+
 fn main() {
     let mode = std::env::args().nth(1).expect("mode");
     let f: fn(&str) -> String = match mode.as_str() {
         "c15" => c15,
         "c15enc" => c15enc,
+        "c13" => c13,
+        "c14" => c14,
         m => panic!("unknown mode {m}"),
     };
     let stdin = io::stdin();
